@@ -11,7 +11,8 @@
      well_formed                       validated input: valid HTTP methods, non-empty names, wildcards only trailing,
                                        peers have pairwise distinct trust domains
      hosts_authentic                   the trust domains of the presented URIs were authenticated by TLS
-     names_literal                     no source name / namespace / partition contains a regex metacharacter
+     partitions_literal                no partition a source stands for contains a regex metacharacter (namespace and
+                                       service names are arbitrary: makeSpiffePattern quotes them since /repo d976793)
      source_monotone                   a strictly narrower source has strictly higher precedence *)
 From Verif Require Import Base.Prelude.
 From Verif Require Import RBAC.Model.
@@ -23,7 +24,8 @@ From Verif Require Import RBAC.Instance.
 
 (* The property at full strength: for every valid intention list, default policy, listener
    kind, connection and request.  It is FALSE of the faithful model, for every regex engine
-   (C14_equiv_false), in two ways (C14_superset_refuted, C14_regex_refuted). *)
+   (C14_equiv_false, C14_superset_refuted).  A second way it used to fail (names spliced into
+   the regex unescaped) was repaired in /repo d976793 and is kept as a regression example. *)
 Definition C14_equiv (re : string -> string -> bool) : Prop :=
   forall cfg ixns dflt http conn req,
     well_formed cfg ixns -> hosts_authentic cfg ixns conn ->
@@ -34,7 +36,7 @@ Definition C14_equiv (re : string -> string -> bool) : Prop :=
    deny: every hypothesis below holds except source_monotone; precedence denies `api`, the
    generated RBAC allows it. *)
 Theorem C14_superset_refuted : forall re,
-  well_formed w_cfg w_superset /\ names_literal w_cfg w_superset
+  well_formed w_cfg w_superset /\ partitions_literal w_cfg w_superset
   /\ hosts_authentic w_cfg w_superset (w_conn "api") /\ ~ source_monotone w_cfg w_superset
   /\ eval_rbac re (translate w_cfg w_superset false false) (w_conn "api") w_req = true
   /\ intention_allows re w_cfg w_superset false false (w_conn "api") w_req = false.
@@ -49,16 +51,18 @@ Theorem C14_superset_refuted_default_allow : forall re,
   /\ intention_allows re w_cfg w_superset' true false (w_conn "api") w_req = true.
 Proof. exact superset_witness_default_allow. Qed.
 
-(* (finding 8) `web.v1 -> db` allow, default deny: every hypothesis holds except
-   names_literal; the caller `webxv1` is allowed as well. *)
-Theorem C14_regex_refuted : forall re,
-  well_formed w_cfg w_regex /\ hosts_authentic w_cfg w_regex (w_conn "webxv1")
-  /\ source_monotone w_cfg w_regex /\ ~ names_literal w_cfg w_regex
-  /\ eval_rbac re (translate w_cfg w_regex false false) (w_conn "webxv1") w_req = true
-  /\ intention_allows re w_cfg w_regex false false (w_conn "webxv1") w_req = false.
+(* (finding 8, repaired in /repo d976793) `web.v1 -> db` allow, default deny: the list meets every
+   hypothesis of C14_equiv_partial, `webxv1` is denied by both sides and `web.v1` allowed by both. *)
+Example C14_regex_regression : forall re,
+  well_formed w_cfg w_regex /\ partitions_literal w_cfg w_regex
+  /\ hosts_authentic w_cfg w_regex (w_conn "webxv1") /\ source_monotone w_cfg w_regex
+  /\ eval_rbac re (translate w_cfg w_regex false false) (w_conn "webxv1") w_req = false
+  /\ intention_allows re w_cfg w_regex false false (w_conn "webxv1") w_req = false
+  /\ eval_rbac re (translate w_cfg w_regex false false) (w_conn "web.v1") w_req = true
+  /\ intention_allows re w_cfg w_regex false false (w_conn "web.v1") w_req = true.
 Proof.
-  intros re. destruct regex_witness_hyps as (H1 & H2 & H3 & H4). destruct (regex_witness re) as (H5 & H6).
-  exact (conj H1 (conj H2 (conj H3 (conj H4 (conj H5 H6))))).
+  intros re. destruct regex_list_hyps as (H1 & H2 & H3 & H4). destruct (regex_regression re) as (H5 & H6 & H7 & H8).
+  exact (conj H1 (conj H2 (conj H3 (conj H4 (conj H5 (conj H6 (conj H7 H8))))))).
 Qed.
 
 Theorem C14_equiv_false : forall re, ~ C14_equiv re.
@@ -72,10 +76,11 @@ Section C14.
   (* assumed of the regex engine: an alternation of valid method names matches exactly its members *)
   Hypothesis re_methods : re_alternation re.
 
-  (* Under the exact hypotheses that exclude the two failing classes, the generated RBAC
-     decides every connection and request as the precedence rules do. *)
+  (* Under the exact hypothesis that excludes the failing class (source_monotone), the
+     generated RBAC decides every connection and request as the precedence rules do, for
+     arbitrary namespace and service names. *)
   Theorem C14_equiv_partial : forall cfg ixns dflt http conn req,
-    well_formed cfg ixns -> names_literal cfg ixns -> hosts_authentic cfg ixns conn ->
+    well_formed cfg ixns -> partitions_literal cfg ixns -> hosts_authentic cfg ixns conn ->
     source_monotone cfg ixns ->
     eval_rbac re (translate cfg ixns dflt http) conn req
     = intention_allows re cfg ixns dflt http conn req.
@@ -85,7 +90,7 @@ Section C14.
      action that is NOT the default, so does the RBAC (default deny: nothing precedence
      allows is denied; default allow: nothing precedence denies is allowed). *)
   Theorem C14_nondefault_kept : forall cfg ixns dflt http conn req,
-    well_formed cfg ixns -> names_literal cfg ixns -> hosts_authentic cfg ixns conn ->
+    well_formed cfg ixns -> partitions_literal cfg ixns -> hosts_authentic cfg ixns conn ->
     intention_allows re cfg ixns dflt http conn req = negb dflt ->
     eval_rbac re (translate cfg ixns dflt http) conn req = negb dflt.
   Proof. exact (nondefault_kept re re_methods). Qed.
@@ -111,11 +116,16 @@ Theorem C14_reference_is_first_sorted_match : forall P ixns,
   find P (sort_ixns ixns) = best P ixns None.
 Proof. exact find_sorted_is_best. Qed.
 
-(* makeSpiffePattern: with literal names the pattern matches exactly the URIs of the identities the source covers *)
+(* makeSpiffePattern: the pattern matches exactly the URIs of the identities the source covers, whatever
+   characters namespace and service name contain *)
 Theorem C14_pattern_exact : forall s u,
-  wf_src s -> lit_src s -> (raw_match (s_td s) (u_host u) = true -> s_td s = u_host u) ->
+  wf_src s -> lit_src s -> raw_match (s_td s) (u_host u) = (s_td s =? u_host u)%string ->
   pat_match (spiffe_pat s) u = covers_uri s u.
 Proof. exact spiffe_pat_covers. Qed.
+
+(* regexp.QuoteMeta as used there: the quoted text, read as a regex, matches exactly the original text *)
+Theorem C14_quote_meta_exact : forall s w, raw_match (quote_meta s) w = (s =? w)%string.
+Proof. exact raw_match_quote_meta. Qed.
 
 (* ixnSourceMatches is sound (what removeSourcePrecedence and simplifyNotSourceSlice rely on) *)
 Theorem C14_source_match_sound : forall cfg conn xf a b,
@@ -129,7 +139,7 @@ Theorem C14_regex_hypothesis_satisfiable : re_alternation re_inst.
 Proof. exact re_inst_alternation. Qed.
 
 Example C14_hypotheses_satisfiable :
-  well_formed ex_cfg ex_ixns /\ names_literal ex_cfg ex_ixns
+  well_formed ex_cfg ex_ixns /\ partitions_literal ex_cfg ex_ixns
   /\ hosts_authentic ex_cfg ex_ixns ex_conn /\ source_monotone ex_cfg ex_ixns.
 Proof. exact example_hyps. Qed.
 
@@ -140,7 +150,7 @@ Proof. exact instance_equiv. Qed.
 
 Print Assumptions C14_superset_refuted.
 Print Assumptions C14_superset_refuted_default_allow.
-Print Assumptions C14_regex_refuted.
+Print Assumptions C14_regex_regression.
 Print Assumptions C14_equiv_false.
 Print Assumptions C14_equiv_partial.
 Print Assumptions C14_nondefault_kept.
@@ -148,6 +158,7 @@ Print Assumptions C14_permission_exact.
 Print Assumptions C14_same_destination_monotone.
 Print Assumptions C14_reference_is_first_sorted_match.
 Print Assumptions C14_pattern_exact.
+Print Assumptions C14_quote_meta_exact.
 Print Assumptions C14_source_match_sound.
 Print Assumptions C14_regex_hypothesis_satisfiable.
 Print Assumptions C14_hypotheses_satisfiable.
